@@ -56,6 +56,11 @@ CHECKS = {
          "All shapes of <= 3 items (thorough: <= 4 items over 6 names, 240,780 shapes) - every ordered choice of names that triggers each loop-grouping decision, each item scalar or column of length 0..3 - in 4 block layouts, with every single-slot deviation over a 16-value alphabet (ints, floats incl. 1e-5 and 123456.789, integral float, words, strings with blanks / apostrophes / double quotes / double blanks / symmetry-operation text), numpy columns, two generations; parse_value on numbers with (su) and quoted strings.",
          "Strings needing nested quotes, number-like strings and reserved words are outside the alphabet (as the quantifier says); 2.0 -> 2 is treated as the documented coercion.",
          "2/C15"),
+ "C16": ("model_checking",
+         "bounded enumeration of write->read chains over atom counts x element lists x coordinate alphabets x bonded/unbonded x routes, XYZ spelling enumeration for all 103 symbols, multi-record SDF; SDF text judged by an independent fixed-column V2000 reader",
+         "Both formats x atom counts {1,2,3,10,99,100,101,200} x element lists cycling through all 103 elements x 6 coordinate kinds (generic, negative, zero, +-9999.9999 field limit, below SDF precision, 12 digits) x bonded/unbonded x string/file routes; every symbol in 3 letter cases x 4 separator styles through the XYZ reader; 1-3 concatenated SDF records from the writer and hand-built by the column reference; each SDF text must satisfy the CTfile V2000 columns.",
+         "Precision XYZ 5e-13 / SDF 5e-5; molecules keep within the 3-digit atom/bond counts of V2000.",
+         "2/C16"),
 }
 
 ALL = ["C%02d" % i for i in range(1, 21)]
